@@ -314,6 +314,14 @@ func runC18Matrix(c *harness.Case) {
 	judge("etcd.Range(count)", read, false, err, true)
 	_, err = es.Range(ctx, &etcdserverpb.RangeRequest{Key: []byte(full), RangeEnd: []byte(fullEnd), Revision: etcd.GetPartitionMagic})
 	judge("etcd.Range(partitions)", read, false, err, true)
+	// the same reads flagged serializable (etcd's "member-local read"): the flag is request content, not a licence to
+	// answer without the leader's revision
+	_, err = es.Range(ctx, &etcdserverpb.RangeRequest{Key: []byte(key), Serializable: true})
+	judge("etcd.Range(get, serializable)", read, false, err, true)
+	_, err = es.Range(ctx, &etcdserverpb.RangeRequest{Key: []byte(full), RangeEnd: []byte(fullEnd), Serializable: true})
+	judge("etcd.Range(list, serializable)", read, false, err, true)
+	_, err = es.Range(ctx, &etcdserverpb.RangeRequest{Key: []byte(full), RangeEnd: []byte(fullEnd), CountOnly: true, Serializable: true})
+	judge("etcd.Range(count, serializable)", read, false, err, true)
 	_, err = es.LeaseGrant(ctx, &etcdserverpb.LeaseGrantRequest{TTL: 10})
 	judge("etcd.LeaseGrant", none, false, err, true)
 	// watch (own history) and range stream through the etcd Watch stream
@@ -507,7 +515,7 @@ func runC18TwoNodes(c *harness.Case, placed bool, simultaneous bool) {
 		var fr fread
 		fr.before, fr.who = before, who
 		if strings.HasPrefix(who, "etcd") {
-			resp, err := fes.Range(context.Background(), &etcdserverpb.RangeRequest{Key: []byte(full), RangeEnd: []byte(fullEnd)})
+			resp, err := fes.Range(context.Background(), &etcdserverpb.RangeRequest{Key: []byte(full), RangeEnd: []byte(fullEnd), Serializable: strings.HasSuffix(who, "s")})
 			fr.err = err
 			if err == nil {
 				fr.header = uint64(resp.Header.GetRevision())
@@ -645,8 +653,10 @@ func runC18TwoNodes(c *harness.Case, placed bool, simultaneous bool) {
 					}
 					if i%2 == 0 {
 						doRead("native")
-					} else {
+					} else if (i/2+j)%2 == 0 {
 						doRead("etcd")
+					} else {
+						doRead("etcd-serializable-reads") // name ends in "s": the request carries Serializable
 					}
 				}
 			}(i)
